@@ -300,6 +300,17 @@ class SidedWorld:
         return numpy.asarray(self.smpl.eval(arr))[0]
 
 
+def origin(e):
+    """file in which the exception was raised (innermost traceback frame)"""
+    tb = e.__traceback__; name = ''
+    while tb is not None:
+        name = tb.tb_frame.f_code.co_filename; tb = tb.tb_next
+    return name.replace('\\', '/').rsplit('/', 1)[-1]
+
+
+EXPRESSION_FILES = ('expression_v1.py', 'expression_v2.py')
+
+
 def real_eval_v2(world, s, how, target):
     """('value', array) | ('syntax', msg) | ('attr', msg) | ('exc', type, msg)"""
     v2, ns = world.v2, world.ns
@@ -320,8 +331,9 @@ def real_eval_v2(world, s, how, target):
             return ('attr', str(e))
         return ('exc', 'AttributeError', str(e)[:80])
     except Exception as e:
-        if isinstance(e, AssertionError) and 'power=' in str(e):
-            return ('exc', 'ZeroDivisionError', 'integer to a negative integer power: NumPy semantics of the evaluation')   # treated like a degenerate value
+        if origin(e) not in EXPRESSION_FILES:
+            # raised by a called function or by the evaluation (e.g. integer to a negative integer power), not by the expression code
+            return ('exc', 'ZeroDivisionError', 'outside the expression modules: %s %s' % (type(e).__name__, str(e)[:60]))
         return ('exc', type(e).__name__, str(e)[:80])
     return ('value', val)
 
@@ -654,10 +666,10 @@ def lean_src_stream(c, v2, rng, ctx, rec, var_shapes, fn_shapes, quick):
         c.broken_no_input('corr:lean-print-elab', 'Lean printer / elaboration of source ASTs disagrees with the harness printer or the real parser', first)
 
 
-V1_FNS = dict(
-    f=lambda u: 2 * u + 1,
-    h=lambda u: u * u,
-    g=lambda u, generates=1: u[..., numpy.newaxis] * numpy.array([1., 10.]) + numpy.array([0., 1.]))
+V1_FNS = dict(      # tolerant signatures: v1 passes extra positional arguments / generates= / consumes= for some call syntaxes
+    f=lambda u, *more, **kw: 2 * u + 1,
+    h=lambda u, *more, **kw: u * u,
+    g=lambda u, *more, generates=1, **kw: u[..., numpy.newaxis] * numpy.array([1., 10.]) + numpy.array([0., 1.]))
 
 V1_ALPHABET = list('abcsABTfgnij012 _+-/^()[]{}<>.e,;:?=$δ')
 
@@ -694,6 +706,8 @@ class V1World:
                     if 'zz' in self.ns._attributes: delattr(self.ns, 'zz')
             else:
                 arr = getattr(self.ns, 'eval_' + target)(s)
+            if getattr(arr, 'arguments', None):
+                return ('degenerate', 'the expression has free arguments (`?name`): nothing to evaluate')
             val = numpy.asarray(self.smpl.eval(arr))[0]
         except v1.ExpressionSyntaxError as e:
             return ('syntax', str(e).split('\n')[0])
@@ -702,8 +716,8 @@ class V1World:
             return ('exc', 'SyntaxError', str(e)[:80])
         except Exception as e:
             msg = str(e)
-            if isinstance(e, AssertionError) and 'power=' in msg:
-                return ('degenerate', 'integer to a negative integer power (NumPy semantics of the evaluation, not of the expression)')
+            if origin(e) not in EXPRESSION_FILES:
+                return ('degenerate', 'raised by a called function or by the evaluation, outside the expression modules: %s' % type(e).__name__)
             if (isinstance(e, TypeError) and 'unexpected keyword argument' in msg) or (isinstance(e, ValueError) and 'expected an array with shape' in msg):
                 return ('degenerate', 'the harness-defined v1 function is called with generates/consumes it does not implement')
             return ('exc', type(e).__name__, msg[:80])
